@@ -31,6 +31,9 @@ func runConserve(o Opts) *Result {
 	ctx := context.Background()
 	uniq := map[string]bool{}
 	for idx := 0; idx < o.N; idx++ {
+		if timeUp() {
+			break
+		}
 		if o.Only >= 0 && idx != o.Only {
 			continue
 		}
